@@ -385,7 +385,7 @@ def run_execd(base, idx, r, sh):
         pairs[r.choice(EXEC_KEYS)] = r.choice(S)
     out = os.path.join(base, "execd-%d.toml" % idx)
     req = json.dumps({"pairs": [[k, v] for k, v in pairs.items()]})
-    p = subprocess.run(["sh", "-c", 'exec "$0" execd "$1" 3>"$2"', os.path.join(vp.BIN, "vpmon"), req, out], stdout=subprocess.PIPE, stderr=subprocess.PIPE)
+    p = subprocess.run(["sh", "-c", 'exec "$0" execd "$1" 3>"$2"', os.path.join(vp.BIN, "vpmon"), req, out], stdout=subprocess.PIPE, stderr=subprocess.PIPE, env=dict(os.environ, **vp.hostile_env()))
     sh.evaluations += 1
     sh.count("route_execd")
     case = {"kind": "execd", "pairs": pairs}
